@@ -144,6 +144,9 @@ pub fn emit(src: &Path, out: &mut String) {
                             }
                         }
                     }
+                    // the order of bounds (and of the impl blocks, below) means nothing: canonical order
+                    bounds.sort();
+                    bounds.dedup();
                     impls.push(format!(
                         "{{ ty := {}, trait_ := {}, params := {}, bounds := {} }}",
                         tcon(&name),
@@ -181,7 +184,8 @@ pub fn emit(src: &Path, out: &mut String) {
             }
         }
     }
-    out.push_str("/-- Every manual `unsafe impl Send/Sync` of the containers, arenas and buckets. -/\n");
+    impls.sort();
+    out.push_str("/-- Every manual `unsafe impl Send/Sync` of the containers, arenas and buckets (sorted). -/\n");
     out.push_str(&format!("def markerImpls : List MarkerImpl := {}\n\n", lean::list(&impls)));
     out.push_str("/-- Field types of the containers, arenas and buckets. -/\n");
     out.push_str(&format!("def structDefs : List StructDef := {}\n\n", lean::list(&defs)));
